@@ -372,6 +372,7 @@ func vfC14StreamCase(rt *rapid.T, c *ev.Collector) {
 
 	ready := func(e *vfEnd) bool { return e.ep.SetupDone() && e.ep.SetupErr() == nil && e.ep.Conn() != nil }
 
+	var verified [2]int
 	check := func(ctx string) {
 		for i, w := range ends {
 			r := ends[1-i]
@@ -396,10 +397,14 @@ func vfC14StreamCase(rt *rapid.T, c *ev.Collector) {
 			if exp > len(w.sent) {
 				fail("c14-expansion", "%s: side %v has %d bytes on the wire past its handshake for %d plaintext bytes", ctx, w.side, exp, len(w.sent))
 			}
-			got := r.ep.Got()
-			if !bytes.Equal(got, w.sent[:exp]) {
-				fail("c14-stream", "%s: direction %v->%v: %d ciphertext bytes released (handshake %d) => reader must hold exactly %d plaintext bytes, holds %d; first difference at %d (reader real=%v, writer real=%v)",
-					ctx, w.side, r.side, rel, w.hsLen, exp, len(got), vfFirstDiff(got, w.sent[:exp]), r.real, w.real)
+			// (nothing new since the last comparison => the append-only log need not be copied again)
+			if gl := r.ep.GotLen(); !(gl > 0 && gl == verified[i] && gl == exp) {
+				got := r.ep.Got()
+				if !bytes.Equal(got, w.sent[:exp]) {
+					fail("c14-stream", "%s: direction %v->%v: %d ciphertext bytes released (handshake %d) => reader must hold exactly %d plaintext bytes, holds %d; first difference at %d (reader real=%v, writer real=%v)",
+						ctx, w.side, r.side, rel, w.hsLen, exp, len(got), vfFirstDiff(got, w.sent[:exp]), r.real, w.real)
+				}
+				verified[i] = len(got)
 			}
 			if r.real && ready(r) && !n.ReadDeadline(r.side).IsZero() {
 				fail("c14-deadline-not-cleared", "%s: side %v completed its handshake but a read deadline (%v) is still armed", ctx, r.side, n.ReadDeadline(r.side))
